@@ -127,6 +127,7 @@ def run(tier):
     proof_leg(ck)
     stream_leg(ck, tier)
     emitted_leg(ck)
+    dheat_leg(ck, tier)
     threads_leg(ck, tier)
     ck.sample({'value': '-0x180000000', 'rfc_bytes': bytes([0, 0, 0, 5, 0xfe, 0x80, 0, 0, 0]).hex()})
     ck.cov['rule'] = ('TLC enumerates every magnitude up to %d bytes over {00,01,7f,80,ff} with both signs and every name-list up to length 3 over 4 names, checking '
@@ -323,6 +324,82 @@ def threads_leg(ck, tier):
             else:
                 ck.cov['traces_validated_against_impl'] += 1
                 ck.nontrivial(('threads-scheduled', order, json.dumps(pl)))
+
+
+def dheat_leg(ck, tier):
+    """The packets of the denial-of-service test mode (--dheat=<connections>[:<key exchange>[:<length of e>]]), which builds its KEXINIT and
+    key-exchange-init packets itself: every one of them is well-framed and decodes cleanly, for every key exchange it knows and
+    every length of e a user may ask for.  The mode's worker processes are run as threads of the scenario process (so that the fake
+    network sees them) and the run is interrupted after a second."""
+    from checks import c09
+
+    def shim(world):
+        import multiprocessing
+        import queue
+        import threading
+        import _thread
+
+        class P:
+            def __init__(self, target=None, args=(), kwargs=None, **kw):
+                self.t = threading.Thread(target=target, args=args, kwargs=kwargs or {}, daemon=True)
+
+            def start(self):
+                self.t.start()
+
+            def join(self, timeout=None):
+                self.t.join(0.05)
+
+            def terminate(self):
+                pass
+
+            def kill(self):
+                pass
+
+            def is_alive(self):
+                return self.t.is_alive()
+        multiprocessing.Process = P
+        multiprocessing.Queue = queue.Queue
+        world.max_conn = 80
+        threading.Timer(1.0, _thread.interrupt_main).start()
+    base = c09.archetypes()['openssh']
+    algs = ['ecdh-sha2-nistp256', 'ecdh-sha2-nistp384', 'ecdh-sha2-nistp521', 'curve25519-sha256', 'diffie-hellman-group14-sha256', 'diffie-hellman-group18-sha512',
+            'diffie-hellman-group-exchange-sha256']
+    scs, meta = [], []
+    for alg in algs:
+        cfg = peers.ServerCfg(base)
+        cfg['kexinit'] = dict(base['kexinit'], kex=[alg, 'curve25519-sha256'])
+        if 'group-exchange' in alg:
+            cfg['gex'] = {'style': 'roundup', 'moduli': [2048, 4096]}
+        for elen in ((None, 4, 5, 6, 7, 8, 9, 10, 11, 32, 65, 97, 133) if tier == 'thorough' or alg.startswith('ecdh') else (None, 4, 33)):
+            arg = '--dheat=1:%s' % alg + ('' if elen is None else ':%d' % elen)
+            scs.append({'argv': [arg, rating.HOST], 'servers': {(rating.HOST, 22): cfg}, 'setup': shim, 'alarm': 30})
+            meta.append((alg, elen))
+    scs.append({'argv': ['--dheat=1', rating.HOST], 'servers': {(rating.HOST, 22): peers.ServerCfg(base)}, 'setup': shim, 'alarm': 30})
+    meta.append(('(chosen by the tool)', None))
+    for (alg, elen), sc, r in zip(meta, scs, runner.run_many(scs)):
+        ck.evaluated()
+        replay = {'argv': sc['argv'], 'exit': r.get('exit'), 'stdout': (r.get('stdout') or '')[-1200:]}
+        if r.get('harness_error'):
+            raise common.Machinery('dheat run failed: %r' % r.get('harness_error'))
+        if r.get('hang'):
+            ck.violation('dheat-run-did-not-stop', '%s: the run did not stop when interrupted' % sc['argv'][0], replay)
+            continue
+        ev = r['events']
+        bad = [e for e in ev if e.get('ev') in ('framing_violation', 'srv_decode_error', 'protocol_violation')]
+        sends = [e for e in ev if e.get('ev') == 'send']
+        inits = [e for e in sends if e.get('type') in (30, 32, 34)]
+        if bad:
+            replay['events'] = bad[:4]
+            ck.violation('dheat-packet-malformed kex=%s e-length=%s' % ('nistp' if 'nistp' in alg else alg.split('-')[0], 'given' if elen else 'default'),
+                         '%s: a packet of the flood violates RFC 4253 section 6 or does not decode: %s' % (sc['argv'][0], bad[0].get('what') or bad[0]), replay)
+        elif any(e.get('bad') or e.get('trailing') for e in sends):
+            ck.violation('dheat-kexinit-malformed', '%s: a KEXINIT of the flood does not decode cleanly' % sc['argv'][0], replay)
+        elif not inits:
+            ck.log('dheat leg: %s sent no key-exchange-init packet the fake server saw (%d sends)' % (sc['argv'][0], len(sends)))
+        else:
+            ck.cov['traces_validated_against_impl'] += len(sends)
+            ck.nontrivial(('dheat', alg, elen))
+    ck.notes.append('dheat leg: %d settings of the denial-of-service mode, packets decoded by the fake server' % len(scs))
 
 
 def proof_leg(ck):
